@@ -1225,10 +1225,12 @@ impl Exec {
                 self.abs = toks.get(1) == Some(&"abstract");
                 "ok".into()
             }
-            "new" | "newdefault" => {
+            "new" | "newdefault" | "default" => {
                 let r = catch_unwind(AssertUnwindSafe(|| {
                     if toks[0] == "new" {
                         Bdd::with_params(toks[1].parse().unwrap(), toks[2].parse().unwrap(), toks[3].parse().unwrap())
+                    } else if toks[0] == "default" {
+                        Bdd::default()
                     } else {
                         Bdd::new(toks[1].parse().unwrap())
                     }
@@ -1334,12 +1336,15 @@ impl Exec {
                 } else {
                     // no other panic is expected on live arguments (C02, C12, …); with a query iterator
                     // alive it is also the query that changed a later result (C16)
+                    let mut ps = props.to_vec();
+                    if ps.contains(&"C03") && !ps.contains(&"C02") {
+                        ps.push("C02"); // the connectives are ITE calls: a panic in one is ITE panicking
+                    }
                     if self.pit.is_some() {
-                        let mut ps = props.to_vec();
                         ps.push("C16");
                         self.fail(&ps, format!("unexpected panic class '{}' while a paths() iterator is alive", c));
                     } else {
-                        self.fail(props, format!("unexpected panic class '{}'", c));
+                        self.fail(&ps, format!("unexpected panic class '{}'", c));
                     }
                 }
                 self.bind_panic();
@@ -1910,6 +1915,46 @@ impl Exec {
                     }
                 }
             }
+            "acc" => {
+                // every raw accessor and predicate on one handle
+                let f = hh!(toks[1]);
+                let rf = self.env[f];
+                let r = catch_unwind(AssertUnwindSafe(|| {
+                    let b = self.bdd();
+                    let i = rf.index();
+                    let n = b.node(i);
+                    format!(
+                        "var={} low={} high={} node={},{},{} next={} one={} zero={} term={} neg={} idx={} pos={} negc={} disp={}",
+                        b.variable(i),
+                        raw_of(b.low(i)),
+                        raw_of(b.high(i)),
+                        n.variable,
+                        raw_of(n.low),
+                        raw_of(n.high),
+                        b.next(i),
+                        b.is_one(rf) as u8,
+                        b.is_zero(rf) as u8,
+                        b.is_terminal(rf) as u8,
+                        rf.is_negated() as u8,
+                        rf.index(),
+                        raw_of(Ref::positive(i)),
+                        raw_of(Ref::negative(i)),
+                        rf
+                    )
+                }));
+                match r {
+                    Ok(s) => {
+                        let b = self.bdd();
+                        let consistent = (b.is_terminal(rf) == (b.is_one(rf) || b.is_zero(rf))) && !(b.is_one(rf) && b.is_zero(rf)) && (b.is_terminal(rf) == (rf.index() == 1));
+                        if !consistent {
+                            self.fail(&["C01", "C08"], format!("is_one / is_zero / is_terminal disagree on {}", show_ref(rf)));
+                        }
+                        s
+                    }
+                    Err(p) => format!("panic {}", panic_class(p)),
+                }
+            }
+            "debugfmt" => format!("{:?}", self.bdd()),
             "heldgc" => {
                 // collect_garbage while the caller still holds a guard obtained from the public
                 // `cache()` / `size_cache()` / `storage()` accessors: the collection cannot take its
